@@ -650,6 +650,47 @@ theorem range_response_206 (method : Str) (q : CondReq) (r : RespIn) (l : Int) (
 example : (respond "GET".toList { range := some "bytes=2-4".toList } {} (some 6) true
     [[65, 66, 67], [], [68, 69, 70]] none 0).map (·.body) = some [[67], [68, 69]] := by decide
 
+/-- End to end for the commonest request: `GET` with `Range: bytes=<first>-<last>` (first ≤ last,
+first inside a resource of length `n > 0`, no `If-Range`) is answered 206 with
+`Content-Range: bytes first-(b-1)/n`, `Content-Length: b - first` where `b = min(last+1, n)`, and
+a body that is exactly `body[first:b]` — for every chunking of the body. -/
+theorem satisfiable_range_206 (d1 d2 : Str) (h1 : IsDigits d1) (h2 : IsDigits d2)
+    (hle : digitsVal d1 ≤ digitsVal d2) (chunks : List Bytes) (r : RespIn) (n : Nat)
+    (ha : digitsVal d1 < n) (kind : Nat) :
+    let a : Nat := digitsVal d1
+    let b : Nat := min (digitsVal d2 + 1) n
+    ∃ o, respond "GET".toList { range := some (bytesEq ++ (d1 ++ '-' :: d2)) } r
+        (some (n : Int)) true chunks none kind = some o ∧
+      o.status = 206 ∧ o.contentRange = some ((a : Int), (b : Int) - 1, (n : Int)) ∧
+      o.contentLength = some ((b : Int) - a) ∧
+      o.body.flatten = (chunks.flatten.drop a).take (b - a) := by
+  intro a b
+  have hp := parse_range_first_last d1 d2 h1 h2 hle
+  have hrf : rangeForLength ⟨bytesUnit, [((digitsVal d1 : Int), some ((digitsVal d2 : Int) + 1))]⟩
+      (some (n : Int)) = some ((a : Int), (b : Int)) := by
+    unfold rangeForLength isByteRangeValid
+    have c1 : ¬ ((digitsVal d1 : Int) ≥ (digitsVal d2 : Int) + 1) := by omega
+    have c2 : (digitsVal d1 : Int) < (n : Int) := by omega
+    simp [c1, c2, a, b]
+    omega
+  have hmc : makeConditionalStatus "GET".toList { range := some (bytesEq ++ (d1 ++ '-' :: d2)) } r
+      (some (n : Int)) true = some (206, .partialContent a b) := by
+    have hz : n ≠ 0 := by omega
+    have e1 : "GET".toList = ['G', 'E', 'T'] := by decide
+    simp [makeConditionalStatus, processRangeRequest, rangeProcessable, hp, hrf, hz, e1]
+  have e1 : ("GET".toList == ['H', 'E', 'A', 'D']) = false := by decide
+  have e : ((b : Int) - (a : Int)).toNat = b - a := by omega
+  have hr : respond "GET".toList { range := some (bytesEq ++ (d1 ++ '-' :: d2)) } r
+      (some (n : Int)) true chunks none kind =
+      some ⟨206, some ((a : Int), (b : Int) - 1, (n : Int)), some ((b : Int) - a),
+        rangeWrapIter chunks a (b - a)⟩ := by
+    simp only [respond, hmc, e1, Bool.false_eq_true, ↓reduceIte, Option.getD_some, Int.toNat_natCast, e]
+  exact ⟨_, hr, rfl, rfl, rfl, (rangeWrapper_exact_iter chunks a (b - a)).1⟩
+
+example : (respond "GET".toList { range := some (bytesEq ++ "1-3".toList) } {} (some 6) true
+    [[65], [], [66, 67, 68, 69], [70]] none 0).map (fun o => (o.status, o.body)) =
+    some (206, [[66, 67, 68]]) := by decide
+
 /-- the full-strength reading of "unparsable, unsatisfiable and multi-range requests yield 416"
 (for GET with ranges accepted and a known length) -/
 def Range416Full : Prop :=
